@@ -201,6 +201,10 @@ def ufn(name, sort, *args):
     raise NotImplementedError("uninterpreted function: symbolic tier only")
 
 
+def EnumConst(qual, name):
+    return Shape("enumconst", qual, name)
+
+
 def ClassOf(qual):
     return Shape("class", qual)
 
@@ -293,6 +297,8 @@ def generate(sh, rng, field_types=None):
         return generate(sh.a[0], rng) if isinstance(sh.a[0], (dict, list)) else sh.a[0]
     if k == "class":
         return load_class(sh.a[0])
+    if k == "enumconst":
+        return getattr(load_class(sh.a[0]), sh.a[1])
     if k == "opaque":
         return make_opaque(sh.a[0], rng.randint(0, 3))
     if k == "opt":
